@@ -166,7 +166,8 @@ Definition match_info (lvs : list leafkind) (ic : ichild) (cd : cdesc) : bool :=
     match nth_error lvs k with
     | Some (KCas _ x') => (kind =? 0) && Bool.eqb x x'
     | Some (KSym _) => (kind =? 1)
-    | _ => false
+    | Some KLocal => (kind =? 0) && negb x     (* never produced by a fetch *)
+    | None => false
     end
   | _, _ => false
   end.
@@ -264,10 +265,7 @@ Definition p_leaf (b : blobs) (g : mon) (l : nat) (mutation : bool) (x : out) : 
   | _ => ""
   end.
 
-Definition p_step (c : cas) (b : blobs) (g : mon) (o : op) (x : out) : string * mon :=
-  if negb (o_cas_ok x) then ("C17:cas-modified", g)
-  else if negb (leak_ok c x) then ("C17:leaf-not-unlinked", g)
-  else
+Definition p_op (c : cas) (b : blobs) (g : mon) (o : op) (x : out) : string * mon :=
   match o with
   | OLookup i n virt fs =>
     match aget i (mon_dirs g) with
@@ -343,6 +341,11 @@ Definition p_step (c : cas) (b : blobs) (g : mon) (o : op) (x : out) : string * 
   | OAllocate l => (p_leaf b g l true x, g)
   | ORead l => (p_leaf b g l false x, g)
   end.
+
+Definition p_step (c : cas) (b : blobs) (g : mon) (o : op) (x : out) : string * mon :=
+  if negb (o_cas_ok x) then ("C17:cas-modified", g)
+  else if negb (leak_ok c x) then ("C17:leaf-not-unlinked", g)
+  else p_op c b g o x.
 
 Fixpoint trace_ok_from (c : cas) (b : blobs) (g : mon) (tr : list (op * out)) : bool :=
   match tr with
